@@ -434,7 +434,7 @@ def run(ctx):
 
         # random long histories
         pairs = set()
-        for h in range(ctx.pick(10, 150)):
+        for h in range(ctx.per_shard(10, 150)):
             hist = []
             for _ in range(rng.randint(50, 200)):
                 r = rng.random()
